@@ -25,7 +25,7 @@ func genShape(t *rapid.T, w *chain.World, yields bool) (*chain.Program, *chain.P
 	}
 	cfg := chain.ProgCfg{
 		MaxDepth: rapid.IntRange(0, 2).Draw(t, "maxDepth"), MaxMw: 2, MaxStmts: 5, Fallbacks: true, Dynamic: true, AnyRoutes: true,
-		Script: chain.ScriptCfg{Writes: true, Data: true, Yields: yields, Copies: true, Abort: 12, Panic: 16},
+		Script: chain.ScriptCfg{Writes: true, Data: true, Pollute: true, Yields: yields, Copies: true, Abort: 12, Panic: 16},
 	}
 	prog := chain.GenProgram(t, w, opts, cfg)
 	// a panic hook, so that a panicking request is contained and the others go on
